@@ -119,6 +119,15 @@ Fixpoint alist_get {V} (k : str) (l : list (str * V)) : option V :=
   | (k', v) :: r => if str_eqb k k' then Some v else alist_get k r
   end.
 
+(* outcome of a Python call: returns a / raises ValueError / raises another exception
+   (OverflowError of np.int8("300"), IndexError ...).  api.paths_to_cats catches only ValueError. *)
+Inductive res (A : Type) := Ok (a : A) | VErr | OErr.
+Arguments Ok {A}. Arguments VErr {A}. Arguments OErr {A}.
+Definition res_map {A B} (f : A -> B) (r : res A) : res B :=
+  match r with Ok a => Ok (f a) | VErr => VErr | OErr => OErr end.
+Definition res_of_opt {A} (o : option A) : res A := match o with Some a => Ok a | None => VErr end.
+Definition opt_of_res {A} (r : res A) : option A := match r with Ok a => Some a | _ => None end.
+
 Section Partition.
   (* external value domains: floats (modulo ==), timestamps, timedeltas *)
   Variables F T D : Type.
@@ -176,23 +185,24 @@ Section Partition.
     if signed then ((- 2 ^ (Z.of_N bits - 1) <=? z) && (z <? 2 ^ (Z.of_N bits - 1)))%Z
     else ((0 <=? z) && (z <? 2 ^ Z.of_N bits))%Z.
 
-  (* util.val_from_meta; None = the call raises *)
-  Definition parse_with_meta (k : kind) (x : str) : option value :=
+  (* util.val_from_meta.  int(x) failing is a ValueError (re-raised: the numpy type is not
+     datetime64[ns]); a value outside the integer dtype is numpy's OverflowError.               *)
+  Definition parse_with_meta (k : kind) (x : str) : res value :=
     match k with
-    | KCat => Some (VStr x)
-    | KBool => Some (VBool (mem_str x [s_ "true"; s_ "True"; s_ "t"; s_ "T"; s_ "1"]))
+    | KCat => Ok (VStr x)
+    | KBool => Ok (VBool (mem_str x [s_ "true"; s_ "True"; s_ "t"; s_ "T"; s_ "1"]))
     | KInt sg bits =>
       match parse_int x with
-      | Some z => if in_range sg bits z then Some (VInt z) else None
-      | None => None
+      | Some z => if in_range sg bits z then Ok (VInt z) else OErr
+      | None => VErr
       end
-    | KFloat => option_map VFloat (parse_float x)
+    | KFloat => res_of_opt (option_map VFloat (parse_float x))
     | KTime ns =>
       match parse_time_np x with
-      | Some t => Some (VTime t)
-      | None => if ns then option_map VTime (parse_time_fmt x) else None
+      | Some t => Ok (VTime t)
+      | None => if ns then res_of_opt (option_map VTime (parse_time_fmt x)) else VErr
       end
-    | KStr => Some (VStr x)
+    | KStr => Ok (VStr x)
     end.
 
   (* util._val_to_num: total (every failure falls through to the next guess) *)
@@ -216,8 +226,8 @@ Section Partition.
     end end end end.
 
   (* util.val_to_num(x, meta) *)
-  Definition val_to_num (m : option kind) (x : str) : option value :=
-    match m with Some k => parse_with_meta k x | None => Some (parse_guess x) end.
+  Definition val_to_num (m : option kind) (x : str) : res value :=
+    match m with Some k => parse_with_meta k x | None => Ok (parse_guess x) end.
 
   (* ------------------------------------------------------------- writer side *)
   Variable P : Type.                                    (* payload of a row (the other columns) *)
@@ -296,34 +306,39 @@ Section Partition.
       else (k', vs) :: cats_add k v t
     end.
 
-  Definition add_hit (pm : list (str * kind)) (st : option pstate) (kv : str * str) : option pstate :=
+  Definition add_hit (pm : list (str * kind)) (st : res pstate) (kv : str * str) : res pstate :=
     match st with
-    | None => None
-    | Some st =>
-      if existsb (pair_eqb kv) (st_seen st) then Some st else
+    | VErr => VErr
+    | OErr => OErr
+    | Ok st =>
+      if existsb (pair_eqb kv) (st_seen st) then Ok st else
       let m := if mem_str (fst kv) (st_strings st) then Some KStr else alist_get (fst kv) pm in
       match val_to_num m (snd kv) with
-      | None => None
-      | Some tp =>
-        Some {| st_cats := cats_add (fst kv) tp (st_cats st);
+      | VErr => VErr
+      | OErr => OErr
+      | Ok tp =>
+        Ok {| st_cats := cats_add (fst kv) tp (st_cats st);
                 st_strings := if is_vstr tp then fst kv :: st_strings st else st_strings st;
                 st_seen := kv :: st_seen st |}
       end
     end.
 
-  (* api._path_to_cats over the (already stripped) directory paths, in iteration order *)
-  Definition path_hits (hive : bool) (dir : str) : option (list (str * str)) :=
-    if hive then hive_hits dir else Some (drill_hits (split_on c_slash dir)).
-  Definition path_to_cats (hive : bool) (pm : list (str * kind)) (dirs : list str)
-    : option (list (str * list value)) :=
-    option_map st_cats
-      (fold_left (fun st dir => match st with
-                                | None => None
-                                | Some _ => match path_hits hive dir with
-                                            | None => None
-                                            | Some hits => fold_left (add_hit pm) hits st
-                                            end
-                                end) dirs (Some st0)).
+  (* api._path_to_cats(paths, parts): `for path, path_parts in zip(paths, parts)`; the hive branch
+     looks at the path, the drill branch at its parts.  A missing hive hit or a hit that does not
+     unpack into (key, val) is a ValueError.                                                    *)
+  Definition path_hits (hive : bool) (pp : str * list str) : res (list (str * str)) :=
+    if hive then res_of_opt (hive_hits (fst pp)) else Ok (drill_hits (snd pp)).
+  Definition path_to_cats (hive : bool) (pm : list (str * kind)) (pps : list (str * list str))
+    : res (list (str * list value)) :=
+    res_map st_cats
+      (fold_left (fun st pp => match st with
+                               | Ok _ => match path_hits hive pp with
+                                         | Ok hits => fold_left (add_hit pm) hits st
+                                         | VErr => VErr
+                                         | OErr => OErr
+                                         end
+                               | e => e
+                               end) pps (Ok st0)).
 
   Inductive scheme := Empty | Simple | Flat | Other | Hive | Drill.
 
@@ -334,21 +349,23 @@ Section Partition.
     match l with [] => true | x :: r => forallb (Nat.eqb x) r end.
 
   (* api.paths_to_cats; `dirs` = the set _strip_path_tail(paths) in its iteration order.
-     An error of the drill attempt propagates (outer None).                                  *)
+     Only a ValueError of the hive attempt leads to the drill attempt; every other exception
+     and every exception of the drill attempt propagates.                                     *)
   Definition paths_to_cats (pm : list (str * kind)) (paths : list str) (dirs : list str)
-    : option (scheme * list (str * list value)) :=
+    : res (scheme * list (str * list value)) :=
     match paths with
-    | [] => Some (Empty, [])
+    | [] => Ok (Empty, [])
     | _ =>
-      if forallb (fun p => negb (nonempty p)) paths then Some (Simple, []) else
+      if forallb (fun p => negb (nonempty p)) paths then Ok (Simple, []) else
       let parts := map (split_on c_slash) (filter nonempty dirs) in
       match parts with
-      | [] => Some (Flat, [])
+      | [] => Ok (Flat, [])
       | _ =>
-        if negb (all_eq_nat (map (@length str) parts)) then Some (Other, []) else
-        match path_to_cats true pm dirs with
-        | Some c => Some (Hive, c)
-        | None => option_map (fun c => (Drill, c)) (path_to_cats false pm dirs)
+        if negb (all_eq_nat (map (@length str) parts)) then Ok (Other, []) else
+        match path_to_cats true pm (combine dirs parts) with
+        | Ok c => Ok (Hive, c)
+        | VErr => res_map (fun c => (Drill, c)) (path_to_cats false pm (combine dirs parts))
+        | OErr => OErr
         end
       end
     end.
@@ -362,7 +379,7 @@ Section Partition.
   Definition row_value (hive : bool) (pm : list (str * kind)) (cat : str) (path : str) : option value :=
     match filter (fun p => match p with k :: _ => str_eqb k cat | [] => false end) (row_partitions hive path) with
     | p :: _ => match pair_of p with
-                | Some (k, v) => val_to_num (alist_get k pm) v
+                | Some (k, v) => opt_of_res (val_to_num (alist_get k pm) v)
                 | None => None
                 end
     | [] => None
@@ -393,10 +410,10 @@ Section Partition.
              (files : list (str * list row)) : option (scheme * list (list (str * value) * P)) :=
     let paths := map fst files in
     match paths_to_cats pm paths (dirs_order (dedup_str (map strip_tail paths))) with
-    | Some (Hive, c) => option_map (pair Hive) (read_files true pm c files)
-    | Some (Drill, c) => option_map (pair Drill) (read_files false pm c files)
-    | Some (s, _) => Some (s, concat (map (fun f => map (fun r => ([], snd r)) (snd f)) files))
-    | None => None
+    | Ok (Hive, c) => option_map (pair Hive) (read_files true pm c files)
+    | Ok (Drill, c) => option_map (pair Drill) (read_files false pm c files)
+    | Ok (s, _) => Some (s, concat (map (fun f => map (fun r => ([], snd r)) (snd f)) files))
+    | _ => None
     end.
 End Partition.
 
